@@ -198,6 +198,8 @@ pub struct Sys {
     pub torn_write: bool,
     /// (value flavour) the broker has sent a PUBLISH that establishes topic alias 2 on this connection
     pub alias_established: std::cell::Cell<bool>,
+    /// params["prelude"] has been played (see `run_prelude`)
+    pub prelude_done: bool,
 }
 
 impl Sys {
@@ -223,6 +225,7 @@ impl Sys {
             ids_preset: false,
             torn_write: false,
             alias_established: std::cell::Cell::new(false),
+            prelude_done: false,
         }
     }
 
@@ -374,7 +377,63 @@ impl Sys {
         self.state_keys.push(self.m.state_key());
     }
 
+    /// params["prelude"] = k: whatever the scenario does happens on the SECOND connection of a Context
+    /// whose first connection (default options, bare CONNACK) ended at an awkward moment:
+    ///  3 = end-of-stream three bytes into an inbound packet; 4 = a failed acknowledgement write with
+    ///  more input behind it; 11 = the user's DISCONNECT while seven bytes of an inbound packet had been
+    ///  received. Nothing of that may leak into what follows (no disconnection is recorded: no resume).
+    fn run_prelude(&mut self, k: u64) {
+        let saved = self.auto_exit;
+        self.auto_exit = false;
+        self.connect_with(
+            ConnectSpec::default(),
+            SPacket::Connack { session_present: false, reason: 0, props: vec![] },
+        );
+        if !self.dead {
+            self.start_run();
+        }
+        let first = SPacket::Publish {
+            dup: false,
+            qos: 1,
+            retain: false,
+            topic: "in/first".into(),
+            pid: Some(4242),
+            props: vec![],
+            payload: b"first-connection".to_vec(),
+        };
+        match k {
+            3 => self.apply(Ev::PartialThenEof(first, 3)),
+            4 => {
+                self.apply(Ev::WriteErr);
+                self.apply(Ev::DeliverBatch(vec![first.clone(), first]));
+            }
+            _ => {
+                if !self.dead {
+                    self.events.push("Deliver(first 7 bytes of a PUBLISH)".into());
+                    self.w.deliver(first.encode()[..7].to_vec());
+                    self.sync();
+                }
+                self.apply(Ev::Start(OpSpec::Disconnect(DisconnectSpec::default())));
+            }
+        }
+        if self.dead {
+            return;
+        }
+        self.events.push("Reconnect".into());
+        self.classes.push("Reconnect".into());
+        self.w.new_wire();
+        self.m.new_wire();
+        self.auto_exit = saved;
+    }
+
     pub fn connect_with(&mut self, spec: ConnectSpec, connack: SPacket) {
+        if let (Some(k), false) = (self.params["prelude"].as_u64(), self.prelude_done) {
+            self.prelude_done = true;
+            self.run_prelude(k);
+            if self.dead {
+                return;
+            }
+        }
         self.alias_established.set(false);
         self.events.push(format!("Connect; {}", connack.brief()));
         self.classes.push("Connect".into());
@@ -414,6 +473,51 @@ impl Sys {
     pub fn bring_up_fl(&mut self, connack_props: Vec<Prop>, flavour: u64) {
         if flavour == 0 {
             return self.bring_up(connack_props);
+        }
+        if flavour == 10 {
+            // RE-AUTHENTICATION between connect() and run(): CONNECT with an authentication method,
+            // the CONNACK (which carries the limits under test) arrives at once, then authorize() with
+            // reason 0x19 is answered by AUTH (Success). Everything the CONNACK announced stays in force.
+            let mut props = vec![Prop::str(P_AUTH_METHOD, "m")];
+            props.extend(connack_props);
+            self.connect_with(
+                ConnectSpec {
+                    auth_method: Some("m".into()),
+                    auth_data: Some(vec![1]),
+                    ..Default::default()
+                },
+                SPacket::Connack { session_present: false, reason: 0, props },
+            );
+            if self.dead {
+                return;
+            }
+            for round in 0..2u8 {
+                let a = AuthSpec {
+                    reason: Some(0x19),
+                    method: Some("m".into()),
+                    data: Some(vec![3 + round]),
+                    user_props: vec![],
+                };
+                self.events.push("Authorize(re-authenticate)".into());
+                self.classes.push("Authorize".into());
+                self.m.authorize(&a);
+                self.w.cmd(CtxCmd::Authorize(a));
+                self.sync();
+                if self.dead {
+                    return;
+                }
+                // (first round: the server continues the exchange; second round: success)
+                self.apply(Ev::Deliver(SPacket::Auth {
+                    reason: if round == 0 { 0x18 } else { 0 },
+                    props: vec![Prop::str(P_AUTH_METHOD, "m"), Prop::bin(P_AUTH_DATA, &[9])],
+                    form: 2,
+                }));
+                if self.dead {
+                    return;
+                }
+            }
+            self.start_run();
+            return;
         }
         if flavour == 9 {
             // The second connection of a Context whose FIRST connection was made with every CONNECT
